@@ -3,10 +3,31 @@
 From Apko Require Import Base.Prelude Model.PkgAuth.
 Open Scope string_scope. Open Scope list_scope.
 
+(* decidable equality of what the decoders return *)
+Definition fkind_eqb (a b : fkind) : bool :=
+  match a, b with
+  | FReg, FReg | FSym, FSym | FDir, FDir | FLink, FLink | FOther, FOther => true
+  | _, _ => false
+  end.
+Definition recsum_eqb (a b : recsum) : bool :=
+  match a, b with
+  | SumNone, SumNone | SumBad, SumBad => true
+  | SumSome x, SumSome y => bytes_eqb x y
+  | _, _ => false
+  end.
+Definition dfile_eqb (a b : dfile) : bool :=
+  String.eqb (f_name a) (f_name b) && fkind_eqb (f_kind a) (f_kind b) && bytes_eqb (f_body a) (f_body b) &&
+  recsum_eqb (f_sum a) (f_sum b) && String.eqb (f_link a) (f_link b).
+Definition control_eqb (a b : control) : bool :=
+  bytes_eqb (c_raw a) (c_raw b) && String.eqb (c_desc a) (c_desc b) && list_eqb String.eqb (c_datahash a) (c_datahash b).
+
 Section Spec.
   Variable sha1 : list N -> list N.
   Variable sha256 : list N -> list N.
   Variable b64 : string -> option (list N).
+  Variable ctl_view : list N -> option (string * list string).
+  Variable gunzip : list N -> option (list N).
+  Variable untar : list N -> option (list dfile).
 
   (* a regular file with a recorded checksum matches it (an undecodable record
      cannot match) *)
@@ -16,13 +37,19 @@ Section Spec.
 
   (* [h]: the handle the index (or lock file) gives; [x]: what was installed.
      - the control section's SHA-1 is the checksum the handle records (its "Q1"
-       prefix being optional),
+       prefix being optional); the control FILE (scripts, triggers) holds the same
+       bytes, and what was read from the control section is what those bytes say,
      - every non-empty datahash the control section records is the hex SHA-256
        of the data section (an empty or absent datahash records nothing),
+     - the entries an installer reads are the ones inside those hashed bytes: no
+       installed byte comes from outside the hashed range,
      - every regular file agrees with its recorded checksum. *)
   Definition Chain (h : handle) (x : exp) : Prop :=
     h_sum b64 h = Some (sha1 (c_raw (x_ctl x))) /\
+    x_ctl_file x = c_raw (x_ctl x) /\
+    mk_ctl ctl_view (c_raw (x_ctl x)) = Some (x_ctl x) /\
     (forall dh, In dh (c_datahash (x_ctl x)) -> dh <> "" -> dh = hex (sha256 (d_raw (x_dat x)))) /\
+    dat_view gunzip untar (d_raw (x_dat x)) = Some (d_files (x_dat x)) /\
     (forall f, In f (d_files (x_dat x)) -> file_ok f).
 
   Definition file_ok_b (f : dfile) : bool :=
@@ -34,13 +61,20 @@ Section Spec.
 
   Definition control_ok_b (h : handle) (x : exp) : bool :=
     option_eqb bytes_eqb (h_sum b64 h) (Some (sha1 (c_raw (x_ctl x)))).
+  Definition control_file_ok_b (x : exp) : bool :=
+    bytes_eqb (x_ctl_file x) (c_raw (x_ctl x)) &&
+    option_eqb control_eqb (mk_ctl ctl_view (c_raw (x_ctl x))) (Some (x_ctl x)).
   Definition datahash_ok_b (x : exp) : bool :=
     forallb (fun dh => String.eqb dh "" || String.eqb dh (hex (sha256 (d_raw (x_dat x))))) (c_datahash (x_ctl x)).
+  Definition covered_b (x : exp) : bool :=
+    option_eqb (list_eqb dfile_eqb) (dat_view gunzip untar (d_raw (x_dat x))) (Some (d_files (x_dat x))).
   Definition files_ok_b (x : exp) : bool := forallb file_ok_b (d_files (x_dat x)).
 
   (* [sfx] names the mechanism when the harness's bookkeeping knows one *)
   Definition chain_tags (sfx : string) (h : handle) (x : exp) : list string :=
     tag_if (negb (control_ok_b h x)) ("viol:control-checksum-mismatch-installed" ++ sfx) ++
+    tag_if (negb (control_file_ok_b x)) ("viol:control-file-not-the-hashed-bytes" ++ sfx) ++
     tag_if (negb (datahash_ok_b x)) ("viol:datahash-mismatch-installed" ++ sfx) ++
+    tag_if (negb (covered_b x)) ("viol:installed-entries-outside-hashed-bytes" ++ sfx) ++
     tag_if (negb (files_ok_b x)) ("viol:file-checksum-mismatch-installed" ++ sfx).
 End Spec.
